@@ -669,27 +669,28 @@ func aggEngine(args []string, in *bufio.Scanner, out *bufio.Writer) {
 				if err := a.h.VerifBroadcastNextPartial(a.ctx, cur); err != nil {
 					return "err:" + err.Error()
 				}
-				// the broadcast goroutines: wait (bounded) for the n-1 sends of the live group
+				// the broadcast goroutines: wait (bounded) for the first send to a peer; all sends carry the same packet
 				var got []*drand.PartialBeaconPacket
-				deadline := time.Now().Add(2 * time.Second)
-				for {
+				peers := len(a.groups[a.live].group.Nodes) - 1
+				deadline := time.Now().Add(settleTimeout)
+				for peers > 0 {
 					a.cli.mu.Lock()
 					got = append([]*drand.PartialBeaconPacket{}, a.cli.bcast...)
 					a.cli.mu.Unlock()
-					if len(got) >= len(a.groups[a.live].group.Nodes)-1 || time.Now().After(deadline) {
+					if len(got) > 0 || time.Now().After(deadline) {
 						break
 					}
 					time.Sleep(100 * time.Microsecond)
 				}
-				var p *drand.PartialBeaconPacket
+				p := &drand.PartialBeaconPacket{Round: round, PreviousSignature: prev, PartialSig: psig}
+				same := "-"
 				if len(got) > 0 {
-					p = got[0]
-				} else {
-					p = &drand.PartialBeaconPacket{Round: round, PreviousSignature: prev, PartialSig: psig}
+					same = bit(got[0].GetRound() == round && bytes.Equal(got[0].GetPreviousSignature(), prev) && bytes.Equal(got[0].GetPartialSig(), psig))
+				} else if peers > 0 {
+					same = "0"
 				}
 				a.history = append(a.history, p)
-				exp := fmt.Sprintf("exp=%d:%s", round, hx(prev))
-				return a.finish("ok", a.pktLabels(p)+" "+exp+fmt.Sprintf(" bc=%d", len(got)))
+				return a.finish("ok", a.pktLabels(p)+" bcsame="+same)
 			case "syncput":
 				r, _ := strconv.ParseUint(f[1], 10, 64)
 				b, _, _ := a.beaconOf(r, f[2], "v")
